@@ -222,6 +222,51 @@ func c06APIOpKey(class string) string {
 	return p[0] + ":" + p[1]
 }
 
+// chainHistEvery: every n-th history of the api part is a long-chain history.
+const chainHistEvery = 25
+
+func c06PlanEntries(plan []c06COp) (es []c06Entry) {
+	for _, p := range plan {
+		if p.Entry != nil {
+			es = append(es, *p.Entry)
+		}
+	}
+
+	return es
+}
+
+func c06APIIndex(table []c06Entry, e c06Entry) int {
+	for i, x := range table {
+		if c06APIKey(x) == c06APIKey(e) {
+			return i
+		}
+	}
+
+	return -1
+}
+
+// c06ChainMutation edits a chain that has been built: a hop is pointed at
+// another name of the chain (a shortcut, or a cycle when it points back), the
+// value at the end is changed, or a hop is deleted.
+func c06ChainMutation(rng *rand.Rand, model []c06Entry, names []string) (op c06COp, ok bool) {
+	if len(model) == 0 {
+		return op, false
+	}
+	t := model[rng.Intn(len(model))]
+	switch r := c06Read(t); {
+	case rng.Intn(100) < 20:
+		return c06COp{Op: "delete", Target: &t}, true
+	case r.kind == c06KindCNAME:
+		e := c06Entry{Domain: strings.ToLower(t.Domain), Answer: names[rng.Intn(len(names))]}
+
+		return c06COp{Op: "update", Target: &t, Entry: &e}, !c06APIHas(model, e)
+	default:
+		e := c06Entry{Domain: strings.ToLower(t.Domain), Answer: []string{"10.0.0.1", "10.0.0.2", "fd00::1", "A", "AAAA", names[0]}[rng.Intn(6)]}
+
+		return c06COp{Op: "update", Target: &t, Entry: &e}, !c06APIHas(model, e)
+	}
+}
+
 func c06APIHas(table []c06Entry, e c06Entry) bool {
 	for _, x := range table {
 		if c06APIKey(x) == c06APIKey(e) {
@@ -280,6 +325,37 @@ func TestVerifC06API(t *testing.T) {
 		var model []c06Entry // shadow table, in the spelling the list handler reports
 		var history []c06APIOp
 		nOps := 8 + rng.Intn(18)
+		probes := c06Tree
+		// Every chainHistEvery-th history builds one long CNAME chain line
+		// by line (tail first, head first or in random order) and then edits
+		// it; the probes are the names of the chain.
+		var plan []c06COp
+		var chainNames []string
+		if hi%chainHistEvery == chainHistEvery-1 {
+			var tbl []c06Entry
+			var ending string
+			tbl, chainNames, ending = c06GenChain(rng)
+			rep.Class("histories:chain:ending-" + ending)
+			rep.Class("histories:chain:length-" + c06LenBucket(len(chainNames)-1))
+			switch rng.Intn(5) {
+			case 0:
+			case 1:
+				rng.Shuffle(len(tbl), func(i, j int) { tbl[i], tbl[j] = tbl[j], tbl[i] })
+			default:
+				for i, j := 0, len(tbl)-1; i < j; i, j = i+1, j-1 {
+					tbl[i], tbl[j] = tbl[j], tbl[i]
+				}
+			}
+			for _, e := range tbl {
+				e.Domain = strings.ToLower(e.Domain)
+				if !c06APIHas(c06PlanEntries(plan), e) {
+					e := e
+					plan = append(plan, c06COp{Op: "add", Entry: &e})
+				}
+			}
+			nOps = len(plan) + 6
+			probes = append(append([]string(nil), chainNames...), "chain.test", "h99.chain.test")
+		}
 		w.begin(hi)
 
 		for si := 0; si < nOps; si++ {
@@ -288,8 +364,18 @@ func TestVerifC06API(t *testing.T) {
 			want := before
 			modBefore := modified
 
+			var planned *c06COp
+			if chainNames != nil {
+				if si < len(plan) {
+					planned = &plan[si]
+				} else if m, ok := c06ChainMutation(rng, model, chainNames); ok {
+					planned = &m
+				}
+			}
 			choice := rng.Intn(100)
 			switch {
+			case planned != nil:
+				op.Op = planned.Op
 			case len(model) == 0 || (choice < 32 && len(model) < 12):
 				op.Op = "add"
 			case choice < 46:
@@ -320,6 +406,9 @@ func TestVerifC06API(t *testing.T) {
 			case "add":
 				kind := g.kind()
 				e, ok := fresh(g.pattern(), kind)
+				if planned != nil {
+					e, ok = *planned.Entry, !c06APIHas(model, *planned.Entry)
+				}
 				if !ok {
 					continue
 				}
@@ -333,6 +422,11 @@ func TestVerifC06API(t *testing.T) {
 				want = append(append([]c06Entry(nil), before...), e)
 			case "delete":
 				i := rng.Intn(len(model))
+				if planned != nil {
+					if i = c06APIIndex(model, *planned.Target); i < 0 {
+						continue
+					}
+				}
 				tgt := model[i]
 				op.Target = &tgt
 				op.Class = "delete:" + c06APIKind(tgt) + ":" + c06APIShape(tgt.Domain)
@@ -361,6 +455,13 @@ func TestVerifC06API(t *testing.T) {
 					kind = "address"
 				}
 				e, ok := fresh(pat, kind)
+				if planned != nil {
+					if i = c06APIIndex(model, *planned.Target); i < 0 {
+						continue
+					}
+					tgt, domChange = model[i], "same-domain"
+					e, ok = *planned.Entry, !c06APIHas(model, *planned.Entry)
+				}
 				if !ok {
 					continue
 				}
@@ -489,14 +590,29 @@ func TestVerifC06API(t *testing.T) {
 
 				continue
 			}
-			modelBad, restartBad := false, false
-			for _, name := range c06Tree {
+			// (4) The product's own restart: WriteDiskConfig, YAML, New.
+			cd, inFile, rerr := c06RestartThroughConfigFile(d, dataDir)
+			if rerr != nil {
+				rep.Violate("api-restart-through-config-file-fails", "the configuration written by WriteDiskConfig cannot be loaded again: "+rerr.Error(), wit(nil))
+				fd.Close()
+
+				continue
+			}
+			rep.Event("restarts_through_config_file")
+			modelBad, restartBad, fileBad := false, false, false
+			for pi, name := range probes {
 				for _, qt := range []uint16{dns.TypeA, dns.TypeAAAA} {
+					if chainNames != nil && qt == dns.TypeAAAA && pi%4 != 0 {
+						continue
+					}
 					w.at(listed, -1, name, qt)
 					res, cerr, pan := c06Call(d, setts, name, qt)
 					fres, fcerr, fpan := c06Call(fd, setts, name, qt)
-					rep.Event("checkhost_calls")
-					rep.Event("checkhost_calls")
+					cres, ccerr, cpan := c06Call(cd, setts, name, qt)
+					rep.EventN("checkhost_calls", 3)
+					if ccerr != nil || cpan != nil {
+						fcerr, fpan = ccerr, cpan
+					}
 					if pan != nil || fpan != nil || cerr != nil || fcerr != nil {
 						rep.Violate("panic-or-error:checkhost", fmt.Sprintf("CheckHost failed: %v %v %v %v", pan, fpan, cerr, fcerr),
 							wit(map[string]any{"query_name": name, "query_type": dns.TypeToString[qt]}))
@@ -532,6 +648,17 @@ func TestVerifC06API(t *testing.T) {
 							fmt.Sprintf("%s %s: the live filter returned %s, a filter freshly built from the listed table returns %s",
 								name, dns.TypeToString[qt], verifkit.JSON(o), verifkit.JSON(fo)), wit(q))
 					}
+					if co := c06Observe(cres); !fileBad && (o.Pass != co.Pass || o.Canon != co.Canon || strings.Join(o.IPs, ",") != strings.Join(co.IPs, ",")) {
+						fileBad = true
+						q["table_in_config_file"] = inFile
+						q["filter_started_from_written_config_answered"] = co
+						rep.Violate("api-restart-through-config-file-changes-resolution:"+c06FileDiffKinds(listed, inFile),
+							fmt.Sprintf("%s %s: the live filter returned %s, a filter started from the configuration it wrote returns %s",
+								name, dns.TypeToString[qt], verifkit.JSON(o), verifkit.JSON(co)), wit(q))
+					}
+					if exp.Depth >= 9 {
+						c06CountLong(rep, exp)
+					}
 					if exp.Nontrivial && samples < 4 && hi/37 == samples && si > 3 {
 						samples++
 						rep.Sample(wit(q))
@@ -539,6 +666,7 @@ func TestVerifC06API(t *testing.T) {
 				}
 			}
 			fd.Close()
+			cd.Close()
 			if modelBad || restartBad {
 				// The live filter no longer follows its table; later steps of
 				// this history would only blame innocent operations.
@@ -560,6 +688,10 @@ func TestVerifC06API(t *testing.T) {
 		if rep.Events[k] < need[k] {
 			rep.Inconcl(fmt.Sprintf("event %q seen %d times, fewer than %d", k, rep.Events[k], need[k]))
 		}
+	}
+	if rep.Events["chain_len_9plus_decided_by_model"] < 50 || rep.Events["chain_len_17plus_decided_by_model"] < 20 ||
+		rep.Events["restarts_through_config_file"] < 1000 {
+		rep.Inconcl("too few long chains or restarts through the configuration file observed")
 	}
 	for _, from := range []string{"address", "cname", "exception", "self"} {
 		for _, to := range []string{"address", "cname", "exception"} {
